@@ -191,6 +191,27 @@ __CPROVER_assigns(buf->offset, __CPROVER_object_whole(seq); seq->data_ != (pod_t
     trusted=['at least one byte follows the sequence in the buffer (r_linearData() of an exhausted buffer forms &data[size], rejected by the index check of the stub)']))
 
 
+UNITS.append(Unit(
+    name='gDeserializeLinearSeq_pra64_small', src=SER, anchor=r'void gDeserializeLinearSeq\(DeSerializeBuffer& buf, Seq& seq\)', proto='void gDeserializeLinearSeq_pra64_small(struct DBuf* buf, struct PRA_u64* seq)',
+    contract="""__CPROVER_requires(DB_OK(buf) && buf->bufdata.size_ <= MAXB && PRA_OK_u64(seq) && g_off == (size_t)buf->offset && g_n <= (MAXB >> 4) && g_off + sizeof(size_t) + g_n * sizeof(uint64_t) < buf->bufdata.size_)
+/* the buffer holds, at the offset, a count g_n followed by g_n elements */
+__CPROVER_requires(g_n == *(const uint64_t*)&buf->bufdata.data_[g_off] && buf->bufdata.capacity_ <= 256 && g_n <= 2 && seq->capacity_ <= 8)
+__CPROVER_ensures(seq->size_ == g_n && buf->offset == (int)(g_off + sizeof(size_t) + g_n * sizeof(uint64_t)))
+/* aligned branch: the stub memcpy moves ELEMENT g_c_u8; unaligned branch: it moves BYTE g_c_u8 -- either way the probe is arbitrary */
+/* copies of <= 16 elements are exact in the stubs: compare WHOLE elements, whichever branch ran; g_e is an arbitrary element index */
+__CPROVER_ensures(g_e < g_n ==> seq->data_[g_e] == *(const uint64_t*)&buf->bufdata.data_[g_off + sizeof(size_t) + g_e * sizeof(uint64_t)])
+__CPROVER_assigns(buf->offset, __CPROVER_object_whole(seq); seq->data_ != (pod_t_u64*)0: __CPROVER_object_whole(seq->data_))""",
+    prelude=SEQP + ['size_t g_off;   /* ghost: the offset before the call */\n', 'size_t g_e;   /* ghost: element probe */\n'], inline=DSEQ_INL,
+    lower=[rx(r'typedef typename Seq::value_type T;', 'typedef uint64_t T;', 1, 1), rx(r'typename Seq::size_type size;', 'size_t size;', 1, 1),
+           rx(r'gDeserializeObj\(buf, size\);', 'gDeserializeObj_u64(buf, (uint64_t*)&size);', 1, 1), rx(r'buf\.atAlignment\(alignof\(T\)\)', 'DeSerializeBuffer_atAlignment(buf, _Alignof(T))', 1, 1),
+           rx(r'buf\.r_linearData\(\)', 'DeSerializeBuffer_r_linearData(buf)', 1, 1), rx(r'seq\.assign\(', 'PRA_assign_u64(seq, ', 1, 1), rx(r'seq\.resize\(', 'PRA_resize_u64(seq, ', 1, 1),
+           rx(r'buf\.setOffset\(buf\.getOffset\(\) \+ size \* sizeof\(T\)\);', 'DeSerializeBuffer_setOffset(buf, (unsigned)(DeSerializeBuffer_getOffset(buf) + size * sizeof(T)));', 1, 1),
+           rx(r'buf\.extract\(\(uint8_t\*\)seq\.data\(\), ', 'DeSerializeBuffer_extract(buf, (uint8_t*)PRA_data_u64(seq), ', 1, 1)],
+    no_flags=NOF, inst='Seq = galois::PODResizeableArray<uint64_t>', timeout=900, reach_timeout=300,
+    says='(small instances: buffer <= 256 bytes, <= 2 elements, INCLUDING the empty sequence into a non-empty destination; quick tier) gDeserializeLinearSeq, BOTH branches (buffer position aligned for T: assign from the buffer; otherwise resize + extract): the sequence gets exactly the count and the elements stored at the offset, and the offset advances by exactly 8 + 8*count',
+    trusted=['at least one byte follows the sequence in the buffer (r_linearData() of an exhausted buffer forms &data[size], rejected by the index check of the stub)']))
+
+
 # ---- round trip, every callee the extracted real code (no contract in between) ------------------------------------------
 # Loops: only PODResizeableArray::reserve's capacity doubling, at most 32 iterations for buffers <= 2^30 bytes: unwound
 # COMPLETELY (unwinding assertions on), so within the size bound this is exhaustive in the data, not a sample.
